@@ -299,7 +299,7 @@ def main(argv=None):
 
 def _brief(detail, n=700):
     if isinstance(detail, dict):
-        detail = {k: v for k, v in detail.items() if k != 'case'}
+        detail = {k: v for k, v in detail.items() if k not in ('case', 'history', 'base', 'rewritten')}
     return str(detail)[:n]
 
 
